@@ -1,0 +1,66 @@
+//go:build verif
+
+package x509
+
+import "sort"
+
+// Verification hooks for certificate issuance / parsing tables (add-only,
+// build tag verif).
+
+// VerifC04SigAlg is one row of signatureAlgorithmDetails plus what
+// signingParamsForPublicKey derives from it.
+type VerifC04SigAlg struct {
+	Algo       int
+	OID        []int
+	PubKeyAlgo int
+	Hash       int
+	IsPSS      bool
+	PSSParams  []byte // rsaPSSParameters(hash).FullBytes for PSS rows
+}
+
+// VerifC04SigAlgTable returns signatureAlgorithmDetails in table order.
+func VerifC04SigAlgTable() []VerifC04SigAlg {
+	var out []VerifC04SigAlg
+	for _, d := range signatureAlgorithmDetails {
+		r := VerifC04SigAlg{Algo: int(d.algo), OID: append([]int{}, d.oid...), PubKeyAlgo: int(d.pubKeyAlgo),
+			Hash: int(d.hash), IsPSS: d.algo.isRSAPSS()}
+		if r.IsPSS {
+			r.PSSParams = rsaPSSParameters(d.hash).FullBytes
+		}
+		out = append(out, r)
+	}
+	return out
+}
+
+// VerifC04EKU is one (constant, OID) pair.
+type VerifC04EKU struct {
+	EKU int
+	OID []int
+}
+
+// VerifC04EKUBuildTable returns oidFromExtKeyUsage for every constant in
+// [0, limit) that has an OID, in ascending order of the constant.
+func VerifC04EKUBuildTable(limit int) []VerifC04EKU {
+	var out []VerifC04EKU
+	for e := 0; e < limit; e++ {
+		if oid, ok := oidFromExtKeyUsage(ExtKeyUsage(e)); ok {
+			out = append(out, VerifC04EKU{EKU: e, OID: append([]int{}, oid...)})
+		}
+	}
+	return out
+}
+
+// VerifC04EKUParseTable returns the parser's OID -> constant map
+// (extKeyUsageFromOID), sorted by dotted OID.
+func VerifC04EKUParseTable() []VerifC04EKU {
+	var keys []string
+	for k := range ekuConstants {
+		keys = append(keys, k)
+	}
+	sort.Strings(keys)
+	var out []VerifC04EKU
+	for _, k := range keys {
+		out = append(out, VerifC04EKU{EKU: int(ekuConstants[k]), OID: append([]int{}, ekuOIDs[k]...)})
+	}
+	return out
+}
